@@ -699,6 +699,17 @@ func (s *Store) Create(ctx context.Context, obj client.Object, opts ...client.Cr
 	return s.end(&c, o, nil)
 }
 
+func hasManager(md map[string]any, mgr, op, sub string) bool {
+	mf, _ := md["managedFields"].([]any)
+	for _, x := range mf {
+		xm, _ := x.(map[string]any)
+		if xm != nil && xm["manager"] == mgr && xm["operation"] == op && strOf(xm, "subresource") == sub {
+			return true
+		}
+	}
+	return false
+}
+
 // touchManager records a field manager entry in metadata.managedFields.
 func touchManager(md map[string]any, mgr, op, sub string) {
 	mf, _ := md["managedFields"].([]any)
@@ -747,7 +758,9 @@ func (s *Store) commit(k objKey, e *entry, m map[string]any, c *CallInfo) {
 	}
 	md["resourceVersion"] = old["resourceVersion"]
 	c.Applied = true
-	if reflect.DeepEqual(normalize(m), e.obj) {
+	// a real API server records the applying manager even when no field value changes
+	newManager := c.PatchType == "apply" && !c.DryRun && !hasManager(old, c.Manager, "Apply", c.Sub)
+	if reflect.DeepEqual(normalize(m), e.obj) && !newManager {
 		return
 	}
 	if c.DryRun {
